@@ -28,10 +28,14 @@ def run(tier, rep, work):
     cfgs.append(dict(kind="ivfpq", metric="l2", M=2, dim=4, nbits=rng.choice([9, 12, 16]), nlist=2, nrand=40, seed=C.seed() + 42, gen=False))
     cfgs.append(dict(kind="ivfpq", metric="l2_squared", M=2, dim=8, nbits=rng.choice([6, 7, 8]), nlist=3, nrand=80, seed=C.seed() + 43, gen=False, mintrain=True))
     cfgs.append(dict(kind="pq", metric="cosine", M=4, dim=8, nbits=rng.choice([5, 8]), nlist=1, nrand=80, seed=C.seed() + 44, gen=False, mintrain=True))
+    # sub-space sizes that are not multiples of four (3, 5, 7): unrolled loops have remainders
+    cfgs.append(dict(kind="pq", metric=rng.choice(metrics), M=2, dim=6, nbits=rng.choice([3, 4, 5]), nlist=1, nrand=60, seed=C.seed() + 45, gen=False))
+    cfgs.append(dict(kind="ivfpq", metric=rng.choice(["l2", "l2_squared"]), M=1, dim=7, nbits=rng.choice([3, 4]), nlist=2, nrand=60, seed=C.seed() + 46, gen=False))
+    cfgs.append(dict(kind="pq", metric="l2", M=3, dim=15, nbits=4, nlist=1, nrand=60, seed=C.seed() + 47, gen=False))
     if not quick:
         for i in range(8):
             M = rng.choice([1, 2, 3, 4, 8])
-            cfgs.append(dict(kind=rng.choice(["pq", "ivfpq"]), metric=rng.choice(metrics), M=M, dim=M * rng.randint(1, 4), nbits=rng.randint(1, 8),
+            cfgs.append(dict(kind=rng.choice(["pq", "ivfpq"]), metric=rng.choice(metrics), M=M, dim=M * rng.randint(1, 8), nbits=rng.randint(1, 8),
                              nlist=rng.randint(1, 16), nrand=1000, steps=36, seed=C.seed() + 60 + i, gen=False))
     for i, cfg in enumerate(cfgs):
         g = (givf if cfg["kind"] == "ivfpq" else gflat) if cfg["gen"] else None
